@@ -218,6 +218,7 @@ type Engine struct {
 	pruneCalls    int
 	seqArrays     map[string][]*Term
 	probing       bool
+	lastGhosts    map[string]Value
 }
 
 type leafClass struct {
